@@ -19,6 +19,13 @@ Definition WF (lo hi : Z) (b : buffer) : bool :=
 Definition olen_ok (c g : option (list Z)) : bool :=
   match c, g with Some a, Some b => zlen a =? zlen b | _, _ => true end.
 
+(* every continuation glyph carries the cluster of the glyph before it *)
+Fixpoint groups_uniform (l : list glyph) : bool :=
+  match l with
+  | a :: ((b :: _) as r) => (negb (is_cont b) || (cl a =? cl b)) && groups_uniform r
+  | _ => true
+  end.
+
 (* the preconditions (upstream assertions kept as comments in the Go port) under which an operation is used *)
 Definition pre (o : op) (b : buffer) : bool :=
   let n := zlen (info b) in
@@ -50,6 +57,26 @@ Definition pre (o : op) (b : buffer) : bool :=
   | ORevRange s e =>
       negb (have_out b) && (0 <=? s) && (s <=? e) && (e <=? n)
       && (((s =? 0) && (e =? n)) || forallb (fun g => cl g =? cl (nth (Z.to_nat s) (info b) g0)) (slice s e (info b)))
+  (* AddRune / AddRunes: the client supplies cluster values that continue the buffer monotonically (AddRunes: the rune
+     indices of the item, inside the text); the capacity the runtime chose for Pos holds the new length *)
+  | OAddRune _ c k => monotone (cls (bseq b) ++ [c]) && (pos_len b + 1 <=? k)
+  | OAddRunes t off len0 k =>
+      let len := add_runes_len t off len0 in
+      (0 <=? off) && (0 <=? len) && (off + len <=? zlen t)
+      && monotone (cls (bseq b) ++ map (fun i => off + i) (zseq len)) && (pos_len b + len <=? k)
+  (* sort: after swapBuffers, inside the buffer *)
+  | OSort s e => negb (have_out b) && (0 <=? s) && (e <=? n)
+  (* reverseGraphemes: no output; without cluster merging (cluster levels other than MonotoneCharacters) every
+     continuation glyph already carries the cluster of its predecessor (what formClusters establishes) *)
+  | ORevGraphemes m => negb (have_out b) && (m || groups_uniform (info b))
+  end.
+
+(* the cluster values an operation brings into the buffer lie in [lo, hi) (only AddRune / AddRunes bring any) *)
+Definition op_rng (lo hi : Z) (o : op) : bool :=
+  match o with
+  | OAddRune _ c _ => (lo <=? c) && (c <? hi)
+  | OAddRunes t off len0 _ => (add_runes_len t off len0 <=? 0) || ((lo <=? off) && (off + add_runes_len t off len0 <=? hi))
+  | _ => true
   end.
 
 (* ---- C01 statements on one step ---- *)
@@ -75,7 +102,8 @@ Fixpoint flags_uniform (l : list glyph) : bool :=
 (* unsafeToBreak(s, e) without output: exactly the glyphs of [s, min(e,len)) outside the minimal cluster of that range
    receive the flags, everything else is unchanged *)
 Definition glyph_eqb (a b : glyph) : bool :=
-  (cl a =? cl b) && fl_eqb (gf a) (gf b) && (rest a =? rest b) && (cp a =? cp b) && (gid a =? gid b).
+  (cl a =? cl b) && fl_eqb (gf a) (gf b) && (rest a =? rest b) && (cp a =? cp b) && (gid a =? gid b)
+  && (up a =? up b) && (gp a =? gp b).
 Fixpoint glyphs_eqb (a b : list glyph) : bool :=
   match a, b with
   | [], [] => true
